@@ -1891,7 +1891,7 @@ def finish (c : Cat) : R Cat := do
 theorem compile_eq (banned : List Kind) (f : List BTree) : compile banned f = (do
     let c ← collectTags f {}
     checkTypeNames f
-    let _ ← pathsForest [] f none
+    let _ ← pathsForest [] f []
     headCheck f
     let c ← addForest banned [] f c
     finish c) := by
@@ -1905,7 +1905,7 @@ theorem compile_eq (banned : List Kind) (f : List BTree) : compile banned f = (d
       cases checkTypeNames (t :: r) with
       | error e => rfl
       | ok u =>
-        cases pathsForest [] (t :: r) none with
+        cases pathsForest [] (t :: r) [] with
         | error e => rfl
         | ok l =>
           by_cases h : (t.dir.kind != Kind.Jsight) = true
@@ -2147,14 +2147,14 @@ theorem checkTypeNames_swap (pre post : List BTree) (a b : BTree) :
     · exact Or.inr (Or.inl h)
     · exact Or.inr (Or.inr (Or.inr h))
 
-theorem pathsForest_nil (anc : List BDir) (last : Option Nat) : pathsForest anc [] last = .ok last := by
+theorem pathsForest_nil (anc : List BDir) (last : List Nat) : pathsForest anc [] last = .ok last := by
   rw [pathsForest]
 
-theorem pathsForest_cons (anc : List BDir) (t : BTree) (r : List BTree) (last : Option Nat) :
+theorem pathsForest_cons (anc : List BDir) (t : BTree) (r : List BTree) (last : List Nat) :
     pathsForest anc (t :: r) last = pathsTree anc t last >>= pathsForest anc r := by
   rw [pathsForest]; cases pathsTree anc t last <;> rfl
 
-theorem pathsForest_append (anc : List BDir) (l r : List BTree) (last : Option Nat) :
+theorem pathsForest_append (anc : List BDir) (l r : List BTree) (last : List Nat) :
     pathsForest anc (l ++ r) last = pathsForest anc l last >>= pathsForest anc r := by
   induction l generalizing last with
   | nil => rw [List.nil_append, pathsForest_nil]; rfl
@@ -2165,7 +2165,7 @@ theorem pathsForest_append (anc : List BDir) (l r : List BTree) (last : Option N
     | ok x => exact ih x
 
 theorem pathsForest_leaves (anc : List BDir) (k : Kind) (hk : k ≠ .Macro ∧ k ≠ .Path) :
-    ∀ (kids : List BTree) (last : Option Nat), kids.all (leafOf k) = true → pathsForest anc kids last = .ok last
+    ∀ (kids : List BTree) (last : List Nat), kids.all (leafOf k) = true → pathsForest anc kids last = .ok last
   | [], last, _ => pathsForest_nil anc last
   | t :: r, last, h => by
     simp only [List.all_cons, Bool.and_eq_true] at h
@@ -2178,7 +2178,7 @@ theorem pathsForest_leaves (anc : List BDir) (k : Kind) (hk : k ≠ .Macro ∧ k
     exact pathsForest_leaves anc k hk r last h.2
 
 /-- a declaration holds no Path directive -/
-theorem paths_decl (anc : List BDir) (a : BTree) (ha : isDecl a = true) (last : Option Nat) :
+theorem paths_decl (anc : List BDir) (a : BTree) (ha : isDecl a = true) (last : List Nat) :
     pathsTree anc a last = .ok last := by
   cases a with
   | node d kids =>
@@ -2192,7 +2192,7 @@ theorem paths_decl (anc : List BDir) (a : BTree) (ha : isDecl a = true) (last : 
       show (Kind.TAG == Kind.Path) = false by decide, Bool.false_eq_true, if_false]
     exact pathsForest_leaves _ _ (by decide) kids last hl
 
-theorem pathsForest_swap (pre post : List BTree) (a b : BTree) (ha : isDecl a = true) (last : Option Nat) :
+theorem pathsForest_swap (pre post : List BTree) (a b : BTree) (ha : isDecl a = true) (last : List Nat) :
     pathsForest [] (pre ++ a :: b :: post) last = pathsForest [] (pre ++ b :: a :: post) last := by
   rw [pathsForest_append, pathsForest_append]
   congr 1
@@ -2267,8 +2267,8 @@ theorem swap_rrel (banned : List Kind) (pre post : List BTree) (a b : BTree) (ha
         | ok u => cases u; rw [ht'] at h2; rw [h2.2 rfl] at ht; cases ht
       | ok u =>
         cases u
-        rw [h2.1 ht, ok_bind, ok_bind, pathsForest_swap pre post a b ha none, headCheck_swap pre post a b hpre]
-        cases pathsForest [] (pre ++ b :: a :: post) none with
+        rw [h2.1 ht, ok_bind, ok_bind, pathsForest_swap pre post a b ha [], headCheck_swap pre post a b hpre]
+        cases pathsForest [] (pre ++ b :: a :: post) [] with
         | error e => trivial
         | ok l =>
           rw [ok_bind, ok_bind]
